@@ -43,6 +43,8 @@ def shards(tier, seed):
     out.append(("jac_worstcase", dict(kind="jac_worst", maxbits=1000)))
     out.append(("sqrt_all_small_primes_residues", dict(kind="sqrt_hard", count=2 if q else 8)))
     out.append(("sqrt_degenerate", dict(kind="sqrt_degenerate", per=4 if q else 40)))
+    for i, ks in enumerate(([66, 129, 192], [130, 160, 256], [193, 224, 255]) if q else ([66, 96, 129], [130, 160, 192], [193, 224, 255], [256, 257, 320], [384, 448], [512, 521])):
+        out.append(("sqrt_sparse_primes_%d" % i, dict(kind="sqrt_sparse", ks=ks)))
     out.append(("jac_huge_composite", dict(kind="jac_huge", count=30 if q else 300)))
     for i in range(2 if q else 6):
         out.append(("concurrent_%d" % i, dict(kind="concurrent", runs=40 if q else 400)))
@@ -102,6 +104,18 @@ def _noise(fn, *args):
         fn(*[0 if i == 0 else a_ for i, a_ in enumerate(args)])
     except BaseException:
         pass
+    # the same numbers used elsewhere in the library first (a curve over that modulus, a point on it): whatever those objects register or
+    # remember about "their" modulus, the number-theory functions are functions of their arguments
+    m_ = args[-1]
+    if lib.is_int(m_) and m_ >= 2 and _NOISE["i"] % 14 == 0:
+        try:
+            from ecdsa import ellipticcurve as _ec
+            for cv_ in (_ec.CurveFp(m_, 1, 1), _ec.CurveFp(m_, -3, 5, 1)):
+                _ec.PointJacobi(cv_, 1, 1, 1)
+                hash(cv_)
+                cv_.contains_point(0, 1)
+        except Exception:
+            pass
 
 
 def check_inv(ctx, a, m, cls):
@@ -295,6 +309,31 @@ def run(ctx, name, kind, **kw):
                 cand = cand[:6]
             for a in cand:
                 check_sqrt(ctx, a, p, extra=nm)
+    elif kind == "sqrt_sparse":
+        # primes with a sparse / structured binary form (the shapes curve designers pick: 2^k +- d, 2^k - 2^j +- 1, c*2^k + 1): runs of zero or
+        # one bits, aligned to machine words or not, in p and in the exponents derived from it ((p+1)/2, (p-1)/2, (p+3)/8, ...)
+        ks = kw["ks"]
+        forms = []
+        for k in ks:
+            forms += [("2^%d+d" % k, lambda d, k=k: (1 << k) + d), ("2^%d-d" % k, lambda d, k=k: (1 << k) - d)]
+            for j in (32, 64, 96, 128, 192, 256):
+                if j < k - 1:
+                    forms += [("2^%d-2^%d+d" % (k, j), lambda d, k=k, j=j: (1 << k) - (1 << j) + d), ("2^%d+2^%d+d" % (k, j), lambda d, k=k, j=j: (1 << k) + (1 << j) + d)]
+            forms += [("c*2^%d+1" % k, lambda d, k=k: d * (1 << k) + 1)]
+        for nm, f in forms:
+            seen = set()
+            for d in range(1, 6000, 2):
+                p = f(d)
+                if p % 8 in seen or p < 11 or not nt.is_prime(p, 2, rng):
+                    continue
+                seen.add(p % 8)
+                t = rng.randrange(2, p)
+                cand = [t * t % p, 4, p - 4, rng.randrange(1, p), 9, 2, 3] if p.bit_length() <= 260 else [t * t % p, 4, rng.randrange(1, p)]
+                for a in cand:
+                    check_sqrt(ctx, a % p, p, extra="sparse:" + nm.split("^")[0] + ("|%dmod8" % (p % 8)))
+                ctx.count("sparse_primes")
+                if len(seen) == 4:
+                    break
     elif kind == "jac_small":
         ns = list(range(3, kw["nmax"] + 1, 2))
         for n in ns[kw["part"]:: kw["parts"]]:
